@@ -146,17 +146,30 @@ def run_label_freshness(chk, src):
                 if isinstance(n, ast.AugAssign) and isinstance(n.target, ast.Attribute) and n.target.attr in ("qntot", "qn"):
                     inplace.append(f"{fi.qual}: {norm_stmt(n, 60)}")
     chk.table("in_place_label_updates", inplace)
-    for rel, cname in ((MP, "MatrixProduct"), (MPS, "Mps"), (MPO, "Mpo"), (MPDM, "MpDm")):
-        ci = src.cls(rel, cname)
-        ma = C13.metacopy_attrs(src, ci)
-        for a in ("qn", "qntot"):
-            if a not in ma:
-                chk.ob("label-freshness", f"{cname}.metacopy:{a}", False, f"{rel}::{cname}.metacopy", "not assigned", "fresh copy")
-                continue
-            val, owner, line = ma[a]
-            chk.ob("label-freshness", f"{cname}.metacopy:{a}", C13.is_fresh_expr(val), f"{rel}::{owner}.metacopy", unparse(val), "fresh expression (.copy() / comprehension of copies)",
-                   line=line, detail=f"metacopy shares `{a}` with the source while {inplace[:1] or 'an operator application'} updates it in place on the copy: applying a charged "
-                                     f"operator silently changes the total charge / labels of the operand and of every copy of it")
+    # the copies themselves are decided by the abstract run of the copy family (C13.copy_complete): metacopy() of every chain class on objects with tagged attribute values
+    class _Capture:
+        def __init__(self):
+            self.obs = []
+
+        def ob(self, rule, key, ok, where, found, want, line=None, detail=""):
+            self.obs.append((key, ok, where, found, want, line, detail))
+
+        def table(self, *a, **k):
+            pass
+
+        def rule(self, *a, **k):
+            pass
+    cap = _Capture()
+    C13.copy_complete(cap, src)
+    import re as _re
+    got = [o for o in cap.obs if _re.match(r"^(MatrixProduct|Mps|Mpo|MpDm)\.metacopy:(qn|qntot) fresh$", o[0])]
+    missing = [o for o in cap.obs if _re.match(r"^(MatrixProduct|Mps|Mpo|MpDm)\.metacopy:(qn|qntot)$", o[0]) and not o[1]]
+    if len(got) + len(missing) < 8:
+        raise AnalysisError(f"label-freshness: the copy run produced {len(got)} verdicts about qn / qntot of the four chain classes, 8 expected")
+    for key, ok, where, found, want, line, detail in got + missing:
+        chk.ob("label-freshness", key.replace(" fresh", ""), ok, where, found, "fresh copy" if not ok else want, line=line,
+               detail=f"metacopy shares the label arrays with the source while {inplace[:1] or 'an operator application'} updates them in place on the copy: applying a charged "
+                      f"operator silently changes the total charge / labels of the operand and of every copy of it. " + (detail or ""))
 
 
 
